@@ -324,6 +324,8 @@ def one(ck, cls):
     from rules.oth import pending_covers_inflight, worker_runs_unlocked
     pending_covers_inflight(ck, cls, tag, "C04-O3")
     worker_runs_unlocked(ck, cls, tag, "C04-O6")
+    from rules.oth import creation_is_atomic
+    creation_is_atomic(ck, cls, tag, "C04-O5")
     # ---- O6 bounded stop
     g = Graph(rs)
     for l in find_loops(rs):
